@@ -153,6 +153,29 @@ pub fn dispatch(ctx: &mut Ctx, verb: &str, a: &[String]) -> Out {
         "paths.table" => paths_table(ctx, a),
         "repo.names" => repo_names(ctx, a),
         "repo.sort" => repo_sort(a),
+        "repo.sort.batch" => {
+            need!(a, 2);
+            let Some(buf) = ctx.load(&a[0]) else { return Out::usage("input") };
+            let mut out = String::new();
+            let mut n = 0usize;
+            for l in lines_of(&buf) {
+                let names: Vec<String> = l.split(' ').filter(|x| !x.is_empty()).map(|x| x.to_string()).collect();
+                let o = repo_sort(&names);
+                match o.value {
+                    J::Arr(v) => {
+                        let v: Vec<String> = v.iter().map(|x| if let J::Str(s) = x { s.clone() } else { String::new() }).collect();
+                        out.push_str(&v.join(" "));
+                    }
+                    _ => out.push_str("?"),
+                }
+                out.push('\n');
+                n += 1;
+            }
+            if std::fs::write(&a[1], out).is_err() {
+                return Out::usage("output");
+            }
+            Out::ok(J::from(n))
+        }
         "gd.open" => {
             need!(a, 2);
             let Some(p) = platform(&a[0]) else { return Out::usage("platform") };
